@@ -8,6 +8,9 @@ the set.  The replay builds the documents in fresh processes under different has
 Closure / one-operation-per-method (bounded, labelled): for generated applications every QName reference
 in the WSDL and its schemas resolves, and every exposed method has exactly one portType operation with
 matching binding operation, messages and faults -- decided by an independent reference resolver."""
+import datetime
+import decimal
+import io
 import os
 import subprocess
 import sys
@@ -26,6 +29,8 @@ from spyne.interface.wsdl import Wsdl11
 WSDL = 'http://schemas.xmlsoap.org/wsdl/'
 XSD = 'http://www.w3.org/2001/XMLSchema'
 SOAPB = 'http://schemas.xmlsoap.org/wsdl/soap/'
+
+WHEN = datetime.datetime(2021, 3, 4, 5, 6, 7)
 
 EMITTER_MODULES = ('spyne.interface.wsdl.wsdl11', 'spyne.interface.xml_schema._base', 'spyne.interface.xml_schema.model',
                    'spyne.interface.xml_schema.defn', 'spyne.interface._base')
@@ -67,14 +72,17 @@ def make_app(kind, services_only=False):
     class MyFault(Fault):
         __namespace__ = ns[0]
 
+    class OtherFault(Fault):
+        __namespace__ = ns[2]
+
     class S1(ServiceBase):
         @rpc(A, _returns=B)
         def one(ctx, a):
-            pass
+            return B(a=a, when=WHEN)
 
         @rpc(C, D, _returns=[A, B], _in_message_name='TwoIn', _out_message_name='TwoOut', _throws=[MyFault])
         def two(ctx, c, d):
-            pass
+            return (d.items[0] if d is not None and d.items else A(x=0, colour='red')), (c.b if c is not None else None)
 
     class S2(ServiceBase):
         __in_header__ = (Hdr1, Hdr2)
@@ -82,26 +90,47 @@ def make_app(kind, services_only=False):
 
         @rpc(Integer, _returns=Integer, _operation_name='Renamed')
         def three(ctx, i):
-            pass
+            if ctx.in_header is not None:
+                ctx.out_header = (Hdr1(t='re:%s' % ctx.in_header[0].t), Hdr2(u='re:%s' % ctx.in_header[1].u))
+            return i + 1
 
         @rpc(A, _returns=A, _body_style='bare')
         def bare(ctx, a):
-            pass
+            return a
 
         @rpc(Integer, _returns=D, _body_style='out_bare')
         def outbare(ctx, i):
-            pass
+            return D(b=B(a=A(x=i, colour='blue'), when=WHEN), items=[A(x=i + 1), A(x=i + 2, colour='green')], name='mid',
+                     level='top', extra=decimal.Decimal('12.50'))
 
         @rpc()
         def empty(ctx):
-            pass
+            return None
+
+        @rpc(Unicode, _returns=Unicode, _in_message_name='FourReq', _out_message_name='FourResp')
+        def four(ctx, s):
+            return s + '/4'
+
+        @rpc(Unicode, _returns=Unicode, _in_message_name='FiveReq', _in_header=(Hdr2, Hdr1), _out_header=(Hdr2,))
+        def five(ctx, s):
+            h = ctx.in_header
+            ctx.out_header = Hdr2(u='five')
+            return '%s/%s/%s' % (s, h[0].u if h else None, h[1].t if h else None)
+
+        @rpc(Unicode, _returns=Unicode, _in_header=(Hdr1,), _out_header=(Hdr1, Hdr2), _throws=[MyFault, Fault, OtherFault])
+        def six(ctx, s):
+            if s == 'fault':
+                raise MyFault('Client.My', 'declared fault')
+            ctx.out_header = (Hdr1(t='six1'), Hdr2(u='six2'))
+            return '%s/%s' % (s, ctx.in_header.t if ctx.in_header is not None and not isinstance(ctx.in_header, (list, tuple))
+                              else (ctx.in_header[0].t if ctx.in_header else None))
 
     class S3(ServiceBase):
         __port_types__ = ('PortX',)
 
         @rpc(Unicode, _returns=Unicode, _port_type='PortX')
         def ported(ctx, s):
-            pass
+            return s[::-1]
     services = {'small': [S1], 'multi': [S1, S2], 'ports': [S1, S2, S3], 'multi_reversed': [S2, S1]}[kind]
     if services_only:
         return services, ns[0]
@@ -204,7 +233,7 @@ def reference_check(doc):
         for h in b.iter('{%s}header' % SOAPB):
             clark, ns_ = _q(h, h.get('message'))
             mname = clark.split('}')[1]
-            if mname not in messages:
+            if ns_ != tns or mname not in messages:
                 problems.append('soap:header refers to missing message %s' % h.get('message'))
             elif h.get('part') not in [p.get('name') for p in messages[mname].findall(W('part'))]:
                 problems.append('soap:header refers to missing part %s of %s' % (h.get('part'), mname))
@@ -265,7 +294,12 @@ junk = [type('J%%d' %% i, (object,), {}) for i in range(%d)]          # shifts t
 from contracts.c07_wsdl import make_app
 junk2 = [type('K%%d' %% i, (object,), {}) for i in range(%d)]
 from spyne.interface.wsdl import Wsdl11
-app = make_app(%r)
+try:
+    app = make_app(%r)
+except BaseException:
+    import traceback
+    traceback.print_exc()
+    sys.exit(3)                    # the generated application itself is wrong: a checker error, not a verdict
 w = Wsdl11(app.interface)
 w.build_interface_document('http://example.com/')
 sys.stdout.buffer.write(w.get_interface_document())
@@ -281,8 +315,14 @@ def build_in_fresh_processes(kind, runs=FRESH_RUNS):
     for seed, junk in runs:
         env = dict(os.environ, PYTHONHASHSEED=str(seed), PYTHONDONTWRITEBYTECODE='1')
         procs.append(subprocess.Popen([sys.executable, '-c', _BUILD_SNIPPET % (root, junk, junk, kind)], stdout=subprocess.PIPE,
-                                      stderr=subprocess.DEVNULL, env=env))
-    return [p.communicate(timeout=300)[0] for p in procs]
+                                      stderr=subprocess.PIPE, env=env))
+    outs = []
+    for p in procs:
+        o, e = p.communicate(timeout=300)
+        if p.returncode == 3:
+            raise RuntimeError("generated application could not be declared: %s" % e.decode('utf8', 'replace')[-800:])
+        outs.append(o)
+    return outs
 
 
 def _mk_determinism(kind):
@@ -350,3 +390,238 @@ def _mk_determinism(kind):
 
 for _k in ('multi', 'ports'):
     _mk_determinism(_k)
+
+
+# ---------------------------------------------------------------------------------------------------------
+# a SOAP client generated from the WSDL alone by an independent toolkit (zeep)
+def _calls(kind):
+    """(operation, keyword arguments for the foreign client, soap headers or None, expected body, expected headers)."""
+    a = dict(x=5, colour='green')
+    b = dict(a=a, when=WHEN)
+    c_ = dict(b=b, items=dict(A=[dict(x=1, colour='red'), dict(x=2, colour=None)]), name='alpha', level='low')
+    d_ = dict(c_, items=dict(A=[dict(x=9, colour='blue')]), extra=decimal.Decimal('3.25'))
+    hdrs = [('Hdr1', dict(t='tok')), ('Hdr2', dict(u='usr'))]
+    calls = [
+        ('one', dict(a=a), None, dict(a=a, when=WHEN), None),
+        ('two', dict(c=c_, d=d_), None, dict(twoResult0=dict(x=9, colour='blue'), twoResult1=b), None),
+    ]
+    if kind in ('multi', 'ports', 'multi_reversed'):
+        calls += [
+            ('Renamed', dict(i=41), hdrs, 42, dict(Hdr1=dict(t='re:tok'), Hdr2=dict(u='re:usr'))),
+            ('bare', a, hdrs, a, None),
+            ('outbare', dict(i=7), hdrs, dict(b=dict(a=dict(x=7, colour='blue'), when=WHEN),
+                                             items=dict(A=[dict(x=8, colour=None), dict(x=9, colour='green')]), name='mid',
+                                             level='top', extra=decimal.Decimal('12.50')), None),
+            ('empty', dict(), hdrs, None, None),
+            ('four', dict(s='abc'), hdrs, 'abc/4', None),
+            ('five', dict(s='abc'), [('Hdr2', dict(u='usr')), ('Hdr1', dict(t='tok'))], 'abc/usr/tok', dict(Hdr2=dict(u='five'))),
+            ('six', dict(s='abc'), [('Hdr1', dict(t='tok'))], 'abc/tok', dict(Hdr1=dict(t='six1'), Hdr2=dict(u='six2'))),
+        ]
+    if kind == 'ports':
+        calls.append(('ported', dict(s='abc'), None, 'cba', None))
+    return calls
+
+
+def _plain(o):
+    """zeep values -> plain dict/list/scalars."""
+    import zeep.helpers
+    o = zeep.helpers.serialize_object(o, dict)
+    return o
+
+
+def _matches(got, want):
+    """want is matched member-wise; members absent from want must be None/absent in got."""
+    if isinstance(want, dict):
+        if not isinstance(got, dict):
+            return False
+        for k, v in want.items():
+            if not _matches(got.get(k), v):
+                return False
+        return all(got.get(k) in (None, [], {}) for k in got if k not in want)
+    if isinstance(want, list):
+        return isinstance(got, list) and len(got) == len(want) and all(_matches(g, w) for g, w in zip(got, want))
+    if isinstance(want, datetime.datetime) and isinstance(got, datetime.datetime):
+        return got.replace(tzinfo=None) == want.replace(tzinfo=None)
+    return got == want
+
+
+def _mk_client(kind):
+    @obligation('C07.foreign_client.%s' % kind, targets=['spyne.interface.wsdl.wsdl11:Wsdl11.build_interface_document',
+                                                         'spyne.server.wsgi:WsgiApplication.__call__',
+                                                         'spyne.protocol.soap.soap11:Soap11.create_in_document',
+                                                         'spyne.protocol.soap.soap11:Soap11.serialize'],
+                bounded="generated application '%s'; one call per exposed method with nested / inherited / enumerated / "
+                        "array arguments and SOAP headers; zeep 4.3 is the independent toolkit" % kind,
+                desc="a SOAP client generated from the ?wsdl document alone by an independent toolkit builds requests the "
+                     "real server (interpreted WsgiApplication with lxml schema validation) accepts, and decodes the "
+                     "server's replies -- bodies, output headers and declared faults -- to the values returned",
+                assumptions=["zeep implements WSDL 1.1 / SOAP 1.1 document-literal correctly"])
+    def ob(c):
+        import zeep
+        from zeep.transports import Transport
+        from spyne.server.wsgi import WsgiApplication
+        services, tns = make_app(kind, services_only=True)
+        app = Application(services, tns, name='GenApp', in_protocol=Soap11(validator='lxml'), out_protocol=Soap11())
+        wsgi = WsgiApplication(app)
+        url = 'http://localhost:7789/app'
+
+        def call_wsgi(method, body=b'', ctype='text/xml; charset=utf-8', qs='', soapaction=None):
+            env = {'REQUEST_METHOD': method, 'PATH_INFO': '/app', 'QUERY_STRING': qs, 'SERVER_NAME': 'localhost',
+                   'SERVER_PORT': '7789', 'HTTP_HOST': 'localhost:7789', 'wsgi.url_scheme': 'http',
+                   'wsgi.input': io.BytesIO(body), 'CONTENT_LENGTH': str(len(body)), 'CONTENT_TYPE': ctype}
+            if soapaction is not None:
+                env['HTTP_SOAPACTION'] = soapaction
+            st = {}
+
+            def sr(status, hdrs, exc_info=None):
+                st['status'] = status
+                st['headers'] = dict(hdrs)
+            sr._pyvc_native = True
+            out = c.run(wsgi, env, sr)
+            if not out.returned:
+                return None, {}, repr(out).encode()
+            chunks = []
+            c.run(lambda: chunks.extend(list(out.value)))
+            return st.get('status'), st.get('headers', {}), b''.join(chunks)
+        status, _, wsdl = call_wsgi('GET', qs='wsdl')
+        c.check('wsdl_served', bool(status) and status.startswith('200'), detail=(status, wsdl[:300]))
+        if not (status and status.startswith('200')):
+            return
+
+        class T(Transport):
+            def load(self, u):
+                if u == url + '?wsdl':
+                    return wsdl
+                raise IOError("no network: %r" % u)
+        try:
+            client = zeep.Client(url + '?wsdl', transport=T())
+        except Exception as e:
+            c.check('client_generated_from_wsdl', False, detail=repr(e)[:600])
+            return
+        c.check('client_generated_from_wsdl', True)
+
+        class Resp(object):
+            def __init__(self, status, headers, content):
+                self.status_code = int(status.split()[0])
+                self.headers = headers
+                self.content = content
+                self.encoding = 'utf-8'
+                self.text = content.decode('utf8')
+        by_op = {}
+        for sname, svc in client.wsdl.services.items():
+            for pname, port in svc.ports.items():
+                for opname in port.binding._operations:
+                    by_op.setdefault(opname, []).append((sname, pname, port))
+        for opname, kwargs, hdrs, want, want_hdrs in _calls(kind):
+            c.check('operation_offered[%s]' % opname, len(by_op.get(opname, [])) >= 1, detail=(opname, sorted(by_op)))
+            if not by_op.get(opname):
+                continue
+            sname, pname, port = by_op[opname][0]
+            proxy = client.bind(sname, pname)
+            kw = dict(kwargs)
+            if hdrs:
+                hv = []
+                for hname, hval in hdrs:
+                    el = [e for e in client.wsdl.types.elements if e.name == hname]
+                    hv.append(el[0](**hval))
+                kw['_soapheaders'] = hv
+            try:
+                envelope = client.create_message(proxy, opname, **kw)
+            except Exception as e:
+                c.check('request_built[%s]' % opname, False, detail=repr(e)[:600])
+                continue
+            c.check('request_built[%s]' % opname, True)
+            body = etree.tostring(envelope)
+            status, headers, resp = call_wsgi('POST', body, soapaction='"%s"' % opname)
+            c.check('server_accepts[%s]' % opname, bool(status) and status.startswith('200'),
+                    detail=(status, resp[:500], body[:800]))
+            if not (status and status.startswith('200')):
+                continue
+            try:
+                got = port.binding.process_reply(client, port.binding.get(opname), Resp(status, headers, resp))
+            except Exception as e:
+                c.check('reply_decoded[%s]' % opname, False, detail=(repr(e)[:400], resp[:600]))
+                continue
+            got = _plain(got)
+            if want_hdrs is not None:
+                gb = got.get('body') if isinstance(got, dict) and 'body' in got else got
+                gh = got.get('header') if isinstance(got, dict) and 'header' in got else None
+                if isinstance(gb, dict) and len(gb) == 1 and not isinstance(want, dict):
+                    (gb,) = gb.values()
+                c.check('reply_decoded[%s]' % opname, _matches(gb, want), detail=(gb, want, resp[:600]))
+                c.check('reply_headers_decoded[%s]' % opname, _matches(gh, want_hdrs), detail=(gh, want_hdrs, resp[:800]))
+            else:
+                gb = got.get('body') if isinstance(got, dict) and set(got) == {'header', 'body'} else got
+                if isinstance(gb, dict) and len(gb) == 1 and not isinstance(want, dict):
+                    (gb,) = gb.values()
+                c.check('reply_decoded[%s]' % opname, _matches(gb, want), detail=(gb, want, resp[:600]))
+        if kind != 'small':
+            sname, pname, port = by_op['six'][0]
+            envelope = client.create_message(client.bind(sname, pname), 'six', s='fault')
+            status, headers, resp = call_wsgi('POST', etree.tostring(envelope), soapaction='"six"')
+            try:
+                port.binding.process_reply(client, port.binding.get('six'), Resp(status, headers, resp))
+                c.check('declared_fault_decoded', False, detail=(status, resp[:400]))
+            except zeep.exceptions.Fault as f:
+                c.check('declared_fault_decoded', f.code.endswith('Client.My') and f.message == 'declared fault',
+                        detail=(f.code, f.message))
+            except Exception as e:
+                c.check('declared_fault_decoded', False, detail=repr(e)[:400])
+    return ob
+
+
+for _k in ('small', 'ports'):
+    _mk_client(_k)
+
+
+# ---------------------------------------------------------------------------------------------------------
+# prefix allocation (deductive: every namespace string, every counter value)
+def _mk_prefix(tname, extra):
+    @obligation('C07.prefix_allocation.%s' % tname, targets=['spyne.interface._base:Interface.get_namespace_prefix'],
+                desc="for every namespace string and every value of the allocation counter: a namespace already in the "
+                     "table keeps its prefix and nothing changes; a new namespace gets a prefix 's<n>' that was bound to "
+                     "nothing before, both tables gain exactly that one entry (prefmap[ns] = pref, nsmap[pref] = ns), "
+                     "every earlier binding is untouched -- so a prefix never names two namespaces in one document",
+                assumptions=["table contents: the standard prefix table plus %r" % (extra,)])
+    def ob(c):
+        from pyvc.sym import And, Or, Not, Implies
+        app = make_app('small')
+        itf = app.interface
+        for p, n in extra:
+            itf.nsmap[p] = n
+            itf.prefmap[n] = p
+        ns = c.str('namespace')
+        k = c.int('counter')
+        c.assume(k >= 0)
+        setattr(itf, '_Interface__ns_counter', k)
+        nsmap0, prefmap0 = dict(itf.nsmap), dict(itf.prefmap)
+        out = c.run(itf.get_namespace_prefix, ns)
+        c.check('returns', out.returned, detail=repr(out))
+        if not out.returned:
+            return
+        pref = out.value
+        known = Or(*[ns == n for n in prefmap0])
+        if len(itf.prefmap) == len(prefmap0):
+            c.check('known_namespace_iff_unchanged', known, detail=(len(itf.prefmap), len(prefmap0)))
+            c.check('tables_unchanged', itf.prefmap == prefmap0 and itf.nsmap == nsmap0)
+            c.check('known_prefix_returned', Or(*[And(ns == n, pref == p) for n, p in prefmap0.items()]), detail=repr(pref))
+            return
+        c.check('known_namespace_iff_unchanged', Not(known))
+        c.check('one_entry_each', len(itf.prefmap) == len(prefmap0) + 1 and len(itf.nsmap) == len(nsmap0) + 1,
+                detail=(len(itf.prefmap), len(itf.nsmap)))
+        c.check('earlier_bindings_untouched', all(itf.prefmap.get(n) is p for n, p in prefmap0.items()) and
+                all(itf.nsmap.get(p) is n for p, n in nsmap0.items()))
+        newp = [p for p in itf.nsmap if p not in nsmap0]
+        newn = [n for n in itf.prefmap if n not in prefmap0]
+        c.check('one_entry_each', len(newp) == 1 and len(newn) == 1, detail=(newp, newn))
+        if len(newp) == 1 and len(newn) == 1:
+            c.check('new_binding_is_the_request', And(newn[0] == ns, itf.nsmap[newp[0]] == ns, newp[0] == pref,
+                                                      itf.prefmap[newn[0]] == pref), detail=(newp, newn, pref))
+            c.check('prefix_was_free', And(*[Not(pref == p) for p in nsmap0]), detail=repr(pref))
+        k1 = getattr(itf, '_Interface__ns_counter')
+        c.check('counter_advances', k1 > k, detail=repr(k1))
+    return ob
+
+
+_mk_prefix('fresh', ())
+_mk_prefix('with_gaps', (('s0', 'urn:p0'), ('s1', 'urn:p1'), ('s3', 'urn:p3'), ('s4', 'urn:p4')))
